@@ -1,5 +1,6 @@
 """C19 — parts of the same type are interchangeable"""
 import copy
+import re
 
 import asm
 import gen
@@ -31,6 +32,28 @@ def segment_start(prod, rid):
                 and f.qualifiers["plasmid"] == rid:
             return int(f.location.start)
     return None
+
+
+def cited(prod, rid):
+    """what the features inside the segment of plasmid `rid` cite: (start, end relative to the segment, papers)"""
+    k0 = segment_start(prod, rid)
+    seg = dict(segments(prod, None)).get(rid)
+    if k0 is None or seg is None:
+        return None
+    refs = prod.annotations.get("references", []) or []
+    out = []
+    for f in prod.features:
+        cs = f.qualifiers.get("citation")
+        if f.type == "source" or not cs or f.location is None:
+            continue
+        a, b = int(f.location.start), int(f.location.end)
+        if k0 <= a and b <= k0 + len(seg):
+            papers = []
+            for c in cs:
+                m = re.fullmatch(r"\[(\d+)\]", c) if isinstance(c, str) else None
+                papers.append(impl.ref_id(refs[int(m.group(1)) - 1]) if m and 1 <= int(m.group(1)) <= len(refs) else "?")
+            out.append((a - k0, b - k0, tuple(papers)))
+    return sorted(out)
 
 
 def check_case(ctx, case):
@@ -84,6 +107,17 @@ def check_case(ctx, case):
                     ctx.fail("the new product is not the old one with only that module's segment replaced", case)
                 if seg1.upper() != case["expected_segment"].upper():
                     ctx.fail("the replaced segment is {!r}, expected {!r}".format(seg1, case["expected_segment"]), case)
+    if r1.split("\t")[0] == "ok" and case.get("same_paper") is not None and "replacement_rid" not in case:
+        # the papers cited inside the other inputs' segments are the same before and after (one paper cited by the
+        # replacement and by another input with different base ranges stays two bibliography entries)
+        for e_ in [case["vector"]] + [m_ for j_, m_ in enumerate(case["mods"]) if j_ != i]:
+            rid_ = "r{}".format(e_["rid"])
+            c0, c1 = cited(p0, rid_), cited(p1, rid_)
+            if c0 is not None and c0 != c1:
+                ctx.fail("replacing module {} changes what the features inside the segment of {} cite: {} -> {}".format(
+                    case["mods"][i]["oid"], rid_, c0[:3], (c1 or [])[:3]), case)
+                break
+        ctx.note("same-paper-other-base-range")
     if case.get("backbone_site"):
         ctx.note("replacement-with-site-in-backbone")
     ctx.note("chain={}".format(len(case["mods"])))
@@ -144,7 +178,17 @@ def run(ctx):
             case["replacement_feats"] = [[1, "u5%d" % j, ["i%d" % rng.randint(max(1, L - 2), L)],
                                           [[a, min(n2, a + rng.randint(1, 6)), 1]]]
                                          for j, a in enumerate(rng.sample(range(n2 - 1), min(2, n2 - 1)))]
-        if rng.random() < 0.2:
+        if "replacement_refs" not in case and rng.random() < 0.15:
+            # the replacement and another input cite the same paper with different base ranges (what every GenBank file
+            # does): two entries of the product's bibliography, before and after
+            o = rng.choice([e for e in [case["vector"]] + case["mods"] if e is not case["mods"][i]])
+            n3 = len(o["word"])
+            o["refs"] = [109]
+            o["feats"] = [[1, "u63", ["i1"], [[p, p + 1, 1]]] for p in range(0, n3 - 1, 2)]
+            case["replacement_refs"] = [108]
+            case["replacement_feats"] = [[1, "u64", ["i1"], [[p, p + 1, 1]]] for p in range(0, len(wd) - 1, 2)]
+            case["same_paper"] = o["oid"]
+        if "same_paper" not in case and rng.random() < 0.2:
             # the replacement comes under the record name of another input (exports without accession, unnamed
             # records), and that other input is a documented one (a reference, a cited feature)
             others = [e for e in [case["vector"]] + case["mods"] if e is not case["mods"][i]]
